@@ -124,10 +124,40 @@ def run(rep: Report, tier: str) -> None:
                 break
             if not cmp_tau(rep, layer.mlp_tau, o[2 * k + 1], f"{kind}(layers={d}) layer {k} mlp_tau (construction order {order[: n + 1]})", c, key=f"{kind}:mlp"):
                 break
+    # (4) stacks built with the rule created INLINE (a temporary, dead after the constructor), several (mult, ratio) at the
+    # same depth one after another -- a hyper-parameter sweep in one process; decoders likewise
+    sweeps = []
+    for d in ([1, 2, 3] if quick else [1, 2, 3, 4, 8, 16]):
+        for _ in range(2 if quick else 6):
+            sweeps.append((d, [(rng.choice(GRID), rng.choice(GRID)) for _ in range(4)]))
+    need = [{"mult": list(m), "ratio": list(r), "layers": d} for d, seq in sweeps for (m, r) in seq]
+    ev = common.tlc_eval("ResidualRule_Eval", "ResidualRule_Eval.cfg", need, tag="rreval3", timeout=600)
+    rep.states += ev["states"]
+    rep.transitions += ev["transitions"]
+    it = iter(ev["out"])
+    for si, (d, seq) in enumerate(sweeps):
+        for n, (m, r) in enumerate(seq):
+            o = next(it)
+            mf, rf = float(Fraction(*m)), float(Fraction(*r))
+            if (si + n) % 3 == 2:
+                kind, layers = "decoder_inline", list(M.TransformerDecoder(hidden_size=4, vocab_size=5, layers=d, heads=1, residual_scaling=transformer_residual_scaling_rule(mf, rf)).layers)
+            else:
+                kind, layers = "stack_inline", list(M.TransformerStack(layers=d, hidden_size=4, heads=1, is_causal=True, residual_scaling=transformer_residual_scaling_rule(mf, rf)))
+            rep.case((kind, d, si, n))
+            c = {"mode": kind, "layers": d, "sweep": [[list(a), list(b)] for a, b in seq[: n + 1]]}
+            if len(layers) != d:
+                rep.violation(f"{kind} with layers={d} has {len(layers)} layers", c, key="stack_len")
+                continue
+            for k, layer in enumerate(layers):
+                what = f"{kind}(layers={d}, mult={Fraction(*m)}, ratio={Fraction(*r)}) layer {k} (after the sweep {seq[:n]} at the same depth)"
+                if not cmp_tau(rep, layer.mhsa_tau, o[2 * k], what + " mhsa_tau", dict(c, layer=k), key=f"{kind}:mhsa"):
+                    break
+                if not cmp_tau(rep, layer.mlp_tau, o[2 * k + 1], what + " mlp_tau", dict(c, layer=k), key=f"{kind}:mlp"):
+                    break
     rep.traces = rep.evaluations
     rep.rule = (
         "(mult, ratio) on the 8x8 rational grid in [1/16,16] x depths (quick: 13 depths, sampled above 8; thorough: all 1..256); fresh rule per case, one shared rule "
-        "object queried for random depth sequences, and TransformerStack/TransformerDecoder built for several depths in random order; non-trivial = all"
+        "object queried for random depth sequences, and TransformerStack/TransformerDecoder built for several depths in random order, and sweeps of inline (temporary) rules at one depth; non-trivial = all"
     )
     rep.sample({"case": cases[0], "spec_tau2": out[0][:4]})
     rep.sample({"case": cases[-1], "spec_tau2_first": out[-1][:2]})
@@ -156,6 +186,22 @@ def replay(rep: Report, path: str) -> None:
         for x in hist:
             for i in range(2 * x):
                 if not cmp_tau(rep, rule(i, 2 * x), exp[x][i], f"replay {c['mode']} history {hist} index {i} layers {2 * x}", c, key="replay"):
+                    return
+    elif c["mode"] in ("stack_inline", "decoder_inline"):
+        sweep = c["sweep"]
+        need = [{"mult": m, "ratio": r, "layers": c["layers"]} for (m, r) in sweep]
+        ev = common.tlc_eval("ResidualRule_Eval", "ResidualRule_Eval.cfg", need, tag="rreval")
+        rep.states += ev["states"]
+        rep.transitions += ev["transitions"]
+        for (m, r), o in zip(sweep, ev["out"]):
+            mf, rf = float(Fraction(*m)), float(Fraction(*r))
+            if c["mode"] == "decoder_inline":
+                layers = list(M.TransformerDecoder(hidden_size=4, vocab_size=5, layers=c["layers"], heads=1, residual_scaling=transformer_residual_scaling_rule(mf, rf)).layers)
+            else:
+                layers = list(M.TransformerStack(layers=c["layers"], hidden_size=4, heads=1, is_causal=True, residual_scaling=transformer_residual_scaling_rule(mf, rf)))
+            for k, layer in enumerate(layers):
+                if not cmp_tau(rep, layer.mhsa_tau, o[2 * k], f"replay {c['mode']} layer {k} mhsa_tau", c, key=f"{c['mode']}:mhsa") or \
+                        not cmp_tau(rep, layer.mlp_tau, o[2 * k + 1], f"replay {c['mode']} layer {k} mlp_tau", c, key=f"{c['mode']}:mlp"):
                     return
     else:
         order = c.get("order", [c["layers"]])
